@@ -395,11 +395,28 @@ def _as_input(np, pts, form):
     raise ValueError(form)
 
 
+PBC_FORMS = ['tuple', 'list', 'array', 'tuple', 'list', 'array', 'ints', 'truthy', 'npint', 'long', 'npbool', 'uint8']
+_TRUTHY = [1, 2, -1, 3, 7, -5, 255, 2 ** 40]
+
+
 def _as_pbc(np, pbc, form):
+    """the three flags in one of the forms a caller may use: only the truth value of entries 0..2 is read (`bint`)."""
     if form == 'tuple':
         return tuple(bool(b) for b in pbc)
     if form == 'list':
         return [bool(b) for b in pbc]
+    if form == 'ints':
+        return [1 if b else 0 for b in pbc]
+    if form == 'truthy':          # any non-zero integer is a set flag (deterministic choice per position)
+        return tuple(_TRUTHY[(3 * k + sum(map(bool, pbc))) % len(_TRUTHY)] if b else 0 for k, b in enumerate(pbc))
+    if form == 'npint':
+        return np.array([2 if b else 0 for b in pbc], dtype=np.int64)
+    if form == 'uint8':
+        return np.array([1 if b else 0 for b in pbc], dtype=np.uint8)
+    if form == 'long':            # entries beyond the third are never read
+        return [bool(b) for b in pbc] + [not pbc[0], True]
+    if form == 'npbool':
+        return [np.bool_(bool(b)) for b in pbc]
     return np.array(pbc, dtype=bool)
 
 
@@ -449,7 +466,7 @@ def gen_arr_case(rng, regime, big=None):
     return {'op': 'arr', 'regime': regime, 'vects': v, 'origin': o, 'pbc': pbc_ if regime != 'exact' else gen_pbc(rng),
             'pos0': pos0, 'pos1': pos1,
             'form0': _form(rng, n0), 'form1': 'f32' if f32 else _form(rng, n1),
-            'pbcform': rng.choice(['tuple', 'list', 'array'])}
+            'pbcform': rng.choice(PBC_FORMS)}
 
 
 def _gen_mask(rng, natoms):
@@ -579,6 +596,79 @@ def gen_disp_case(rng):
 
 
 # ----------------------------------------------------------------------------------------
+# API level: argument forms of the wrappers themselves (rank 0 / 1 / 2 / 3), integer-valued flags, the pbc setter
+# ----------------------------------------------------------------------------------------
+API_FLAG_VALUES = [0, 0, 0, 1, 1, 2, -1, 3, 255, -7, 2 ** 40]
+
+
+def gen_api_case(rng):
+    v, o = gen_cell(rng, rng.choice(CELL_KINDS))
+
+    def arg():
+        r = rng.random()
+        if r < 0.14:
+            return ['s', rng.choice(['float', 'int', 'np', '0d', 'none-free'])]
+        if r < 0.34:
+            return ['f', gen_point(rng, v, o), rng.choice(['list', 'tuple', 'array', 'ints'])]
+        if r < 0.88:
+            n = rng.choice([0, 1, 1, 2, 2, 3, 4])
+            return ['r', [gen_point(rng, v, o) for _ in range(n)], rng.choice(['array', 'list', 'tuple', 'fortran', 'readonly'])]
+        return ['k', rng.choice([0, 1, 1, 2, 3])]
+    k = rng.choice([3, 3, 3, 3, 4, 5])
+    flags = [rng.choice(API_FLAG_VALUES) for _ in range(k)]
+    return {'op': 'api', 'vects': v, 'origin': o, 'flags': flags,
+            'flagform': rng.choice(['list', 'tuple', 'npint', 'mixed']), 'a0': arg(), 'a1': arg()}
+
+
+def gen_pbcarg_case(rng):
+    k = rng.choice([0, 1, 2, 3, 3, 3, 3, 4, 6])
+    return {'op': 'pbcarg', 'vals': [rng.choice(API_FLAG_VALUES) for _ in range(k)],
+            'form': rng.choice(['list', 'tuple', 'npint', 'bools', 'construct'])}
+
+
+def _api_arg_wire(a):
+    if a[0] == 's':
+        return 's'
+    if a[0] == 'f':
+        p = [float(round(x)) for x in a[1]] if a[2] == 'ints' else a[1]
+        return 'f ' + ' '.join(cm.fr(x) for x in p)
+    if a[0] == 'r':
+        return f'r {len(a[1])} ' + _flat(a[1])
+    return f'k {a[1]}'
+
+
+def _api_arg_py(np, a):
+    if a[0] == 's':
+        return {'float': 1.5, 'int': 3, 'np': np.float64(2.25), '0d': np.array(0.5), 'none-free': np.int64(-2)}[a[1]]
+    if a[0] == 'f':
+        if a[2] == 'ints':
+            return [int(round(x)) for x in a[1]]
+        return {'list': list, 'tuple': tuple, 'array': lambda p: np.array(p, dtype=float)}[a[2]](a[1])
+    if a[0] == 'r':
+        arr = np.array(a[1], dtype=float).reshape(-1, 3)
+        if a[2] == 'list':
+            return arr.tolist() if len(a[1]) else np.zeros((0, 3))
+        if a[2] == 'tuple':
+            return tuple(tuple(r) for r in arr.tolist()) if len(a[1]) else np.zeros((0, 3))
+        if a[2] == 'fortran':
+            return np.asfortranarray(arr)
+        if a[2] == 'readonly':
+            arr.setflags(write=False)
+        return arr
+    return np.zeros((a[1], 3, 3))
+
+
+def _api_flags_py(np, flags, form):
+    if form == 'tuple':
+        return tuple(flags)
+    if form == 'npint':
+        return np.array(flags, dtype=np.int64)
+    if form == 'mixed':
+        return [bool(f) if i % 2 else (np.int64(f) if abs(f) < 2 ** 62 else f) for i, f in enumerate(flags)]
+    return list(flags)
+
+
+# ----------------------------------------------------------------------------------------
 # wire format
 # ----------------------------------------------------------------------------------------
 def _b(pbc):
@@ -624,6 +714,12 @@ def lines_for(case):
     if op == 'slice':
         f = lambda x: '_' if x is None else str(x)
         return [f"slice {case['n']} {f(case['a'])} {f(case['b'])} {f(case['c'])}"]
+    if op == 'api':
+        base = (f"{len(case['flags'])} {' '.join(map(str, case['flags']))} {_flat(case['vects'])} "
+                f"{_api_arg_wire(case['a0'])} {_api_arg_wire(case['a1'])}")
+        return ['api dvect ' + base, 'api dmag2 ' + base]
+    if op == 'pbcarg':
+        return [f"pbcarg {len(case['vals'])} {' '.join(map(str, case['vals']))}".strip()]
     raise ValueError(op)
 
 
@@ -631,7 +727,7 @@ def lines_for(case):
 # running the implementation
 # ----------------------------------------------------------------------------------------
 def _errclass(e):
-    return {'TypeError': 'type', 'ValueError': 'value'}.get(type(e).__name__, 'other:' + type(e).__name__)
+    return {'TypeError': 'type', 'ValueError': 'value', 'AssertionError': 'assert'}.get(type(e).__name__, 'other:' + type(e).__name__)
 
 
 def _call(f):
@@ -696,6 +792,26 @@ def impl_run(case):
         return {'disp': _call(lambda: am.displacement(s0, s1, box_reference=case['ref']))}
     if op == 'slice':
         return {'slice': _call(lambda: list(range(*slice(case['a'], case['b'], case['c']).indices(case['n']))))}
+    if op == 'api':
+        box = _mk_box(am, case['vects'], case['origin'])
+        fl = _api_flags_py(np, case['flags'], case['flagform'])
+        a, b = _api_arg_py(np, case['a0']), _api_arg_py(np, case['a1'])
+        return {'dvect': _call(lambda: am.dvect(a, b, box, fl)), 'dmag': _call(lambda: am.dmag(a, b, box, fl))}
+    if op == 'pbcarg':
+        vals = case['vals']
+        val = {'list': list, 'tuple': tuple, 'npint': lambda x: np.array(x, dtype=np.int64),
+               'bools': lambda x: [bool(t) for t in x], 'construct': list}[case['form']](vals)
+        if case['form'] == 'construct':
+            return {'pbc': _call(lambda: [bool(t) for t in am.System(pbc=val).pbc])}
+        s_ = am.System()
+
+        def setit():
+            s_.pbc = val
+            return [bool(t) for t in s_.pbc]
+        r = _call(setit)
+        if r[0] == 'err' and [bool(t) for t in s_.pbc] != [True, True, True]:
+            return {'pbc': ('ok', 'refused but changed the flags to ' + str(list(s_.pbc)))}
+        return {'pbc': r}
     raise ValueError(op)
 
 
@@ -833,6 +949,39 @@ def compare(case, impl, outs):
         if arr.shape != (len(fr) // 3, 3) or not _exact_eq(arr.ravel().tolist(), fr):
             bad.append(('disp', f"displacement(box_reference={case['ref']!r}) {arr.tolist()} != model {[float(x) for x in fr]}"))
         return bad
+    if op == 'api':
+        for name, out, width in (('dvect', outs[0], 3), ('dmag', outs[1], 1)):
+            st, val = impl[name]
+            what = f"am.{name}({case['a0']}, {case['a1']}, box {case['vects']}, pbc={case['flags']} as {case['flagform']})"
+            if out.startswith('err:'):
+                if st != 'err' or 'err:' + val != out:
+                    bad.append((f'api:{name}:error', f'{what}: model refuses with {out}, implementation gave {st} {str(val)[:80]!r}'))
+                continue
+            if st == 'err':
+                bad.append((f'api:{name}:error', f'{what} raised {val}, model accepts'))
+                continue
+            toks = out.split()
+            n = int(toks[1])
+            fr = [Fraction(x) for x in toks[2:]]
+            arr = np.asarray(val)
+            if arr.shape != ((n, 3) if width == 3 else (n,)):
+                bad.append((f'api:{name}:shape', f'{what}: shape {arr.shape}, model has {n} row(s)'))
+            elif width == 3 and not _exact_eq(arr.ravel().tolist(), fr):
+                bad.append((f'api:{name}', f'{what} = {arr.tolist()} != model {[float(x) for x in fr]}'))
+            elif width == 1 and not all(_sqrt_ok(float(x), m2) for x, m2 in zip(arr.tolist(), fr)):
+                bad.append((f'api:{name}', f'{what} = {arr.tolist()} != sqrt of model {[float(x) for x in fr]}'))
+        return bad
+    if op == 'pbcarg':
+        st, val = impl['pbc']
+        out = outs[0]
+        what = f"System.pbc = {case['vals']} (as {case['form']})"
+        if out.startswith('err:'):
+            return [] if (st == 'err' and 'err:' + val == out) else \
+                [('pbcarg:error', f'{what}: model refuses with {out}, implementation gave {st} {str(val)[:80]!r}')]
+        if st == 'err':
+            return [('pbcarg:error', f'{what} raised {val}, model accepts')]
+        exp = [t == '1' for t in out.split()[1:]]
+        return [] if val == exp else [('pbcarg', f'{what}: the System holds {val}, model {exp}')]
     if op == 'slice':
         st, val = impl['slice']
         out = outs[0]
@@ -1041,7 +1190,7 @@ def gen_history(rng, oracle=False):
             if oracle and (n0 == 0 or n1 == 0):
                 n0, n1 = 1, 3
             add({'do': 'arr', 'kind': rng.choice(['dvect', 'dmag', 'both', 'both']), 'box': b, 'pbc': gen_pbc(rng),
-                 'pbcform': rng.choice(['tuple', 'list', 'array']),
+                 'pbcform': rng.choice(PBC_FORMS),
                  'pos0': [gen_point(rng, bx['v'], bx['o']) for _ in range(n0)],
                  'pos1': [gen_point(rng, bx['v'], bx['o']) for _ in range(n1)],
                  'form0': _form(rng, n0), 'form1': _form(rng, n1)})
@@ -1517,6 +1666,8 @@ def correspond(ctx):
     cases += [gen_sys_case(rng) for _ in range(ctx.n(1500, 20000))]
     cases += [gen_disp_case(rng) for _ in range(ctx.n(600, 8000))]
     cases += [gen_history(rng) for _ in range(ctx.n(500, 6000))]
+    cases += [gen_api_case(rng) for _ in range(ctx.n(600, 6000))]
+    cases += [gen_pbcarg_case(rng) for _ in range(ctx.n(150, 1500))]
     for _ in range(ctx.n(200, 2000)):
         ch = lambda: None if rng.random() < 0.3 else rng.randint(-12, 12)
         cases.append({'op': 'slice', 'n': rng.randint(0, 9), 'a': ch(), 'b': ch(),
@@ -2160,7 +2311,7 @@ def _oracle_case(rng, regime, kind=None, inside=None, big=None):
         pbc[rng.randrange(3)] = True
     return {'regime': regime, 'vects': v, 'origin': o, 'pbc': pbc, 'p0': p0, 'p1': p1, 'translate': tr,
             'form0': 'f32' if f32 else _form(rng, len(p0)), 'form1': _form(rng, len(p1)),
-            'pbcform': rng.choice(['tuple', 'list', 'array'])}
+            'pbcform': rng.choice(PBC_FORMS)}
 
 
 def _sel_text(sel):
@@ -2315,6 +2466,57 @@ def check_refusal(ctx, case, stats):
                     {'op': 'refusal', 'case': case})
 
 
+def oracle_api(ctx, case, stats):
+    """argument handling of the wrappers on the real code, decided from the shapes alone: a 0-d argument is a TypeError (first),
+    a rank-3 argument or incompatible lengths a ValueError; an accepted call returns one row per pair and depends on the
+    flags only through the truth value of entries 0..2."""
+    import numpy as np
+    import atomman as am
+    if case['op'] == 'pbcarg':
+        r = impl_run(case)['pbc']
+        vals = case['vals']
+        exp = ('ok', [bool(v) for v in vals]) if len(vals) == 3 else ('err', 'assert')
+        if r != exp:
+            _viol(ctx, 'api:pbc-setter', f"System.pbc = {vals} (as {case['form']}): expected "
+                       f"{'the truth values ' + str(exp[1]) if exp[0] == 'ok' else 'an AssertionError (not three flags), flags unchanged'}; got {r}",
+                  {'op': 'api', 'case': case})
+        return
+    box = _mk_box(am, case['vects'], case['origin'])
+    fl = _api_flags_py(np, case['flags'], case['flagform'])
+    a, b = _api_arg_py(np, case['a0']), _api_arg_py(np, case['a1'])
+    kinds = (case['a0'][0], case['a1'][0])
+    lens = [1 if x[0] == 'f' else len(x[1]) if x[0] == 'r' else None for x in (case['a0'], case['a1'])]
+    if 's' in kinds:
+        exp = ('err', 'type')
+    elif 'k' in kinds:
+        exp = ('err', 'value')
+    elif lens[0] == 1 or lens[1] == 1 or lens[0] == lens[1]:
+        exp = ('ok', lens[1] if lens[0] == 1 else lens[0])
+    else:
+        exp = ('err', 'value')
+    rep = {'op': 'api', 'case': case}
+    truth = tuple(bool(f) for f in case['flags'][:3])
+    for name, f, width in (('dvect', am.dvect, 3), ('dmag', am.dmag, 1)):
+        r = _call(lambda: f(a, b, box, fl))
+        what = f"am.{name}({case['a0']}, {case['a1']}, cell {case['vects']}, pbc={case['flags']} as {case['flagform']})"
+        stats['api_calls'] = stats.get('api_calls', 0) + 1
+        if exp[0] == 'err':
+            if r != exp:
+                _viol(ctx, 'api:refusal', f"{what} must raise {'TypeError' if exp[1] == 'type' else 'ValueError'}; got {r[0]} {str(r[1])[:100]!r}", rep)
+            continue
+        if r[0] == 'err':
+            _viol(ctx, 'api:raises', f'{what} raised {r[1]} for arguments of compatible shapes', rep)
+            continue
+        arr = np.asarray(r[1])
+        if arr.shape != ((exp[1], 3) if width == 3 else (exp[1],)):
+            _viol(ctx, 'api:shape', f'{what} returned shape {arr.shape}, expected {exp[1]} row(s)', rep)
+            continue
+        r2 = _call(lambda: f(a, b, box, truth))
+        if r2[0] != 'ok' or not np.array_equal(arr, np.asarray(r2[1])):
+            _viol(ctx, 'api:flag-truth', f'{what} = {arr.tolist()} differs from the same call with pbc={truth} (the truth values of '
+                       f'the first three flags): {str(r2[1])[:300]}', rep)
+
+
 def search(ctx, broken):
     rng = random.Random(ctx.seed * 7919 + 17)
     mult = 3 if broken else 1
@@ -2347,6 +2549,10 @@ def search(ctx, broken):
         check_history(ctx, h, stats)
     for _ in range(ctx.n(200, 2500) * mult):
         oracle_refusal(ctx, rng, stats)
+    for it in range(ctx.n(500, 5000) * mult):
+        case = gen_pbcarg_case(rng) if it % 5 == 0 else gen_api_case(rng)
+        ctx.stats.case('oracle:api', repr(case), nontrivial=True)
+        oracle_api(ctx, case, stats)
     sizes = big_sizes(ctx, rng)
     for n in sizes:                                # large systems: code paths that switch on at a size
         spec = gen_big_disp(rng, n)
@@ -2385,6 +2591,12 @@ def replay(ctx, payload):
         print(f"replay large systems ({r['case']['n']} atoms, call {r.get('call')}):", 'still fails' if ctx.violations else 'passes now')
         for f in ctx.violations[:3]:
             print('  ', f.what[:700])
+        return
+    if r.get('op') == 'api':
+        oracle_api(ctx, r['case'], stats)
+        print('replay argument handling:', 'still fails' if ctx.violations else 'passes now')
+        for f in ctx.violations[:3]:
+            print('  ', f.what[:600])
         return
     if r.get('op') == 'refusal':
         check_refusal(ctx, r['case'], stats)
